@@ -33,7 +33,7 @@ func runC17(x *Ctx) {
 	x.C.Rule("C17.R2", "entries enter a Reader only through addToken(FromSealed)", 2)
 	x.C.Rule("C17.R3", "all-or-nothing reading", 7)
 	x.C.Rule("C17.R4", "CAR block integrity", 3)
-	x.C.Rule("C17.R5", "writers cover the whole map", 3)
+	x.C.Rule("C17.R5", "writers cover the whole map and report every failed write", 4)
 
 	variantPipelines(x)
 	singleDoor(x)
@@ -389,6 +389,7 @@ func writersCover(x *Ctx) {
 			x.C.Obl("C17.R5", "car:yields-all", x.pos(f), "ToCarWriter yields {cid: key, data: value} for every entry of the writer's map", ok, "")
 		}
 	}
+	carWriterAbort(x, "C17.R5")
 	if f := x.fn("C17.R5", ctnPkg+"writeCar$1"); f != nil {
 		w := func(n string, ct *paths.Term) bool {
 			return n == ctnPkg+"ldWrite" && len(ct.Args) == 2 && ct.Args[1].String() == "[call[(github.com/ipfs/go-cid.Cid).Bytes](arg0.c),arg0.data]"
@@ -452,4 +453,28 @@ func rangesOverWriter(x *Ctx, root *ssa.Function) []writerRange {
 		}
 	}
 	return out
+}
+
+// carWriterAbort: the body that consumes the block iterator in writeCar (the yield function of its
+// range-over-func loop, or a callback handed to the iterator): every abort leaves a non-nil error for writeCar
+// to return.
+func carWriterAbort(x *Ctx, rule string) {
+	if wc := x.fn(rule, ctnPkg+"writeCar"); wc != nil {
+		var y *ssa.Function
+		for _, p := range x.pathsQuiet(wc) {
+			for _, c := range p.Calls() {
+				if pv, isParam := c.Call.Value.(*ssa.Parameter); isParam && pv == wc.Params[len(wc.Params)-1] && len(c.Call.Args) == 1 {
+					if g, _ := paths.FuncOfTerm(p.Term(c.Call.Args[0])); g != nil {
+						y = g
+					}
+				}
+			}
+		}
+		if y == nil {
+			x.C.Unresolved(rule, "consumer:writeCar", x.pos(wc), "cannot find the function that consumes the block iterator")
+		} else {
+			ok, detail := abortLeavesError(x, y)
+			x.C.Obl(rule, "car:abort-leaves-error", x.pos(y), "when writing a block fails (or the iterator yields an error) the loop stops and a non-nil error reaches writeCar's result", ok, detail)
+		}
+	}
 }
